@@ -13,8 +13,13 @@
 (*                  C05), errors and end are terminal (C01, C02);            *)
 (*   Sensitive      each of a set of wrong steps (skipped, repeated, altered *)
 (*                  record; early end; record after the end; wrong position; *)
-(*                  batch that changes another slot; short exact batch) is   *)
-(*                  reported by Judge with the right property id.            *)
+(*                  batch that changes another slot; short exact batch;      *)
+(*                  swallowed / altered / late / surfacing-interrupt source  *)
+(*                  errors; truncation error instead of the source error;    *)
+(*                  fabricated record after an error; panic; growth although *)
+(*                  the record fits, with a wrong argument, wrong arithmetic *)
+(*                  or an answer not adopted; BufferLimit without refusal)   *)
+(*                  is reported by Judge with the right property id.         *)
 EXTENDS ReaderA
 CONSTANTS FaInputs, FqInputs, MaxSteps, NSlots
 VARIABLES fmt, x, chain, cur, mode, sets, s, steps, delivered, since, verdict, mut
@@ -24,6 +29,12 @@ N == Len(chain)
 Ev(op, slot, n, to, res, pos, newsets) ==
   [op |-> op, slot |-> slot, n |-> n, to |-> to, res |-> res, pos |-> pos, io |-> <<>>, grow |-> <<>>, cap |-> -1, alloc |-> -1,
    sets |-> newsets, sets_panic |-> FALSE, setcap |-> [t \in 1..NSlots |-> 0], fault |-> FALSE, pp |-> ""]
+\* an event with source / policy sub-events
+EvX(op, res, pos, io, grow, cap) ==
+  [Ev(op, 0, 0, <<>>, res, pos, sets) EXCEPT !.io = io, !.grow = grow, !.cap = cap]
+RdOk(n) == [t |-> "r", a |-> 8, g |-> n, e |-> ""]
+RdErr(k) == [t |-> "r", a |-> 8, g |-> 0, e |-> k]
+Pol == [k |-> "std", a |-> 0, b |-> 0]
 RecRes(el) == [k |-> "rec", head |-> el.rec.head, lines |-> el.rec.lines, qual |-> el.rec.qual]
 Coords(el) == IF el.coords THEN <<el.line, el.byte>> ELSE <<>>
 \* the error an ideal reader reports for descriptor d (message as the library words it is not modelled:
@@ -36,7 +47,7 @@ ErrRes(d) == [k |-> d.k, line |-> CHOOSE l \in d.lines : TRUE, found |-> d.found
 Init == /\ \/ fmt = "fasta" /\ x \in FaInputs /\ chain = FaChain(x)
            \/ fmt = "fastq" /\ x \in FqInputs /\ chain = FqChain(x)
         /\ cur = 1 /\ mode = "stream" /\ sets = [t \in 1..NSlots |-> <<>>]
-        /\ s = InitState(NSlots, 0) /\ steps = 0 /\ delivered = <<>> /\ since = 1 /\ verdict = {} /\ mut = "none"
+        /\ s \in {InitState(NSlots, 0), InitState(NSlots, 3), InitState(NSlots, 8)} /\ steps = 0 /\ delivered = <<>> /\ since = 1 /\ verdict = {} /\ mut = "none"
 
 Apply(e, cur2, mode2, sets2, deliv2, since2) ==
   LET j == Judge(fmt, chain, s, e) IN
@@ -101,7 +112,62 @@ MSeekLost == /\ steps < MaxSteps /\ mut = "none" /\ verdict = {} /\ mode = "stre
              /\ cur + 1 <= N /\ chain[cur].okRec /\ chain[cur + 1].okRec /\ Differs(chain[cur], chain[cur + 1])
              /\ Wrong(Ev("next", 0, 0, <<>>, RecRes(chain[cur + 1]), Coords(chain[cur + 1]), sets), "C05")
 
-Next == \/ INext("next") \/ INext("iter") \/ (\E t \in 1..NSlots : ISet(t, 0) \/ ISet(t, 1) \/ ISet(t, 2)) \/ (\E j \in 1..6 : ISeek(j))
+\* ---- ideal behaviour around source errors and the growth policy (C14, C09, C06)
+\* the source fails during this call: the call returns that very error; afterwards only the weak rules apply
+IFault(kind) ==
+  /\ steps < MaxSteps /\ mut = "none" /\ verdict = {} /\ mode = "stream"
+  /\ Apply(EvX("next", [k |-> "io", kind |-> kind, msg |-> <<>>], <<>>, <<RdOk(2), RdErr(kind)>>, <<>>, -1), cur, "limbo", sets, delivered, since)
+\* after an error: end of input, or genuine later records in order
+IAfterFault ==
+  /\ steps < MaxSteps /\ mut = "none" /\ verdict = {} /\ mode = "limbo"
+  /\ \/ Apply(Ev("next", 0, 0, <<>>, [k |-> "none"], <<>>, sets), cur, mode, sets, delivered, since)
+     \/ \E j \in cur..N :
+           /\ chain[j].okRec
+           /\ (\A i \in cur..(j - 1) : ~(chain[i].okRec /\ ~Differs(chain[i], chain[j])))
+           /\ Apply(Ev("next", 0, 0, <<>>, RecRes(chain[j]), <<>>, sets), j + 1, mode, sets, delivered, since)
+\* interrupted reads are retried inside the call and change nothing
+IInterrupted ==
+  /\ steps < MaxSteps /\ mut = "none" /\ verdict = {} /\ mode = "stream" /\ chain[cur].okRec
+  /\ Apply(EvX("next", RecRes(chain[cur]), Coords(chain[cur]), <<RdErr("interrupted"), RdOk(3), RdErr("interrupted"), RdOk(1)>>, <<>>, -1),
+           cur + 1, mode, sets, Append(delivered, cur), since)
+\* the record does not fit: the policy is asked with the current capacity and its answer adopted
+IGrow == /\ steps < MaxSteps /\ mut = "none" /\ verdict = {} /\ mode = "stream" /\ chain[cur].okRec /\ s.cap > 0 /\ chain[cur].len + 1 > s.cap
+         /\ Apply(EvX("next", RecRes(chain[cur]), Coords(chain[cur]), <<RdOk(1)>>, <<[c |-> s.cap, a |-> 2 * s.cap, p |-> Pol]>>, 2 * s.cap),
+                  cur + 1, mode, sets, Append(delivered, cur), since)
+IRefused == /\ steps < MaxSteps /\ mut = "none" /\ verdict = {} /\ mode = "stream" /\ chain[cur].okRec /\ s.cap > 0 /\ chain[cur].len + 1 > s.cap
+            /\ Apply(EvX("next", [k |-> "buffer_limit", msg |-> <<>>], <<>>, <<>>, <<[c |-> s.cap, a |-> 0, p |-> [k |-> "refuse", a |-> 0, b |-> 0]]>>, s.cap),
+                     cur, "limbo", sets, delivered, since)
+\* wrong steps around errors and growth
+MSwallowed == /\ steps < MaxSteps /\ mut = "none" /\ verdict = {} /\ mode = "stream" /\ chain[cur].okEnd
+              /\ Wrong(EvX("next", [k |-> "none"], <<>>, <<RdErr("other")>>, <<>>, -1), "C14")
+MKindChanged == /\ steps < MaxSteps /\ mut = "none" /\ verdict = {} /\ mode = "stream"
+                /\ Wrong(EvX("next", [k |-> "io", kind |-> "other", msg |-> <<>>], <<>>, <<RdErr("would_block")>>, <<>>, -1), "C14")
+MIntrSurfaces == /\ steps < MaxSteps /\ mut = "none" /\ verdict = {} /\ mode = "stream"
+                 /\ Wrong(EvX("next", [k |-> "io", kind |-> "interrupted", msg |-> <<>>], <<>>, <<RdErr("interrupted")>>, <<>>, -1), "C14")
+MLateError == /\ steps < MaxSteps /\ mut = "none" /\ verdict = {} /\ mode = "stream"
+              /\ Wrong(EvX("next", [k |-> "io", kind |-> "other", msg |-> <<>>], <<>>, <<RdOk(1)>>, <<>>, -1), "C14")
+MTruncation == /\ steps < MaxSteps /\ mut = "none" /\ verdict = {} /\ mode = "stream" /\ fmt = "fastq" /\ chain[cur].okRec /\ chain[cur].errs = {}
+               /\ Wrong(EvX("next", [k |-> "unexpected_end", line |-> chain[cur].line, found |-> 0, seq |-> 0, qual |-> 0, id |-> <<>>, msg |-> Dec(chain[cur].line)],
+                            <<>>, <<RdErr("other")>>, <<>>, -1), "C14")
+MFabricatedAfterError == /\ steps < MaxSteps /\ mut = "none" /\ verdict = {} /\ mode = "limbo"
+                         /\ Wrong(Ev("next", 0, 0, <<>>, [k |-> "rec", head |-> <<1, 2, 3>>, lines |-> <<<<4>>>>, qual |-> <<>>], <<>>, sets), "C06")
+MPanic == /\ steps < MaxSteps /\ mut = "none" /\ verdict = {}
+          /\ Wrong(Ev("next", 0, 0, <<>>, [k |-> "panic", msg |-> "x"], <<>>, sets), "C06")
+MGrowFits == /\ steps < MaxSteps /\ mut = "none" /\ verdict = {} /\ mode = "stream" /\ chain[cur].okRec /\ s.cap > 0 /\ ~(chain[cur].len + 1 > s.cap)
+             /\ Wrong(EvX("next", RecRes(chain[cur]), Coords(chain[cur]), <<>>, <<[c |-> s.cap, a |-> 2 * s.cap, p |-> Pol]>>, 2 * s.cap), "C09")
+MLimitWithoutRefusal == /\ steps < MaxSteps /\ mut = "none" /\ verdict = {} /\ mode = "stream"
+                        /\ Wrong(EvX("next", [k |-> "buffer_limit", msg |-> <<>>], <<>>, <<>>, <<>>, -1), "C09")
+MWrongGrowArg == /\ steps < MaxSteps /\ mut = "none" /\ verdict = {} /\ mode = "stream" /\ chain[cur].okRec /\ s.cap > 0 /\ chain[cur].len + 1 > s.cap + 1
+                 /\ Wrong(EvX("next", RecRes(chain[cur]), Coords(chain[cur]), <<>>, <<[c |-> s.cap + 1, a |-> 2 * s.cap + 2, p |-> [k |-> "x", a |-> 0, b |-> 0]]>>, 2 * s.cap + 2), "C09")
+MArithmetic == /\ steps < MaxSteps /\ mut = "none" /\ verdict = {} /\ mode = "stream" /\ chain[cur].okRec /\ s.cap > 0 /\ chain[cur].len + 1 > s.cap
+               /\ Wrong(EvX("next", RecRes(chain[cur]), Coords(chain[cur]), <<>>, <<[c |-> s.cap, a |-> 2 * s.cap + 1, p |-> Pol]>>, 2 * s.cap + 1), "C09")
+MCapNotAdopted == /\ steps < MaxSteps /\ mut = "none" /\ verdict = {} /\ mode = "stream" /\ chain[cur].okRec /\ s.cap > 0 /\ chain[cur].len + 1 > s.cap
+                  /\ Wrong(EvX("next", RecRes(chain[cur]), Coords(chain[cur]), <<>>, <<[c |-> s.cap, a |-> 2 * s.cap, p |-> Pol]>>, 2 * s.cap + 3), "C09")
+
+Next == \/ IFault("other") \/ IFault("would_block") \/ IAfterFault \/ IInterrupted \/ IGrow \/ IRefused
+        \/ MSwallowed \/ MKindChanged \/ MIntrSurfaces \/ MLateError \/ MTruncation \/ MFabricatedAfterError \/ MPanic
+        \/ MGrowFits \/ MLimitWithoutRefusal \/ MWrongGrowArg \/ MArithmetic \/ MCapNotAdopted
+        \/ INext("next") \/ INext("iter") \/ (\E t \in 1..NSlots : ISet(t, 0) \/ ISet(t, 1) \/ ISet(t, 2)) \/ (\E j \in 1..6 : ISeek(j))
         \/ MSkip \/ MRepeat \/ MEarlyEnd \/ MAfterEnd \/ MWrongPos \/ MOtherSlot \/ MShortExact \/ MEmptyBatch \/ MSeekLost
 Spec == Init /\ [][Next]_vars
 
@@ -118,7 +184,8 @@ FqIn == {<<64,97,10,65,10,43,10,73,10,64,98,10,67,67,10,43,10,73,73,10>>,
          <<64,97,13,10,65,13,10,43,13,10,73,13,10,64,97,13,10,65,13,10,43,13,10,73>>}
 Props(v) == {p[1] : p \in v}
 NoFalseAlarm == mut = "none" => /\ verdict = {}
-                                /\ s.cur = cur /\ s.mode = mode /\ s.sets = sets
+                                /\ s.mode = mode /\ s.sets = sets
+                                /\ (mode # "limbo" => s.cur = cur)
 Sensitive == mut # "none" => (IF mut = "base" THEN Base(fmt) ELSE mut) \in Props(verdict)
 \* the records delivered since the last seek are the chain's records from the seek target on, each once, in order
 Consequences == /\ \A i \in 1..Len(delivered) : delivered[i] = since + i - 1
